@@ -51,7 +51,7 @@ func (c *Contract) clauses(kind string) []*Clause {
 var reFuncDirective = regexp.MustCompile(`^func\s+(.+)$`)
 var reLoop = regexp.MustCompile(`^loop\s+(\d+)\s*:\s*(invariant|rangeinv|decreases|with)\s*(?:\[([A-Za-z0-9_\-]+)\])?\s+(.*)$`)
 var reAssert = regexp.MustCompile(`^assert\s+([A-Za-z0-9_\-]+)\s+before\s+"((?:[^"\\]|\\.)*)"\s*:\s*(.*)$`)
-var reClause = regexp.MustCompile(`^(requires|ensures|decreases)\s*(?:\[([A-Za-z0-9_\-]+)\])?\s+(.*)$`)
+var reClause = regexp.MustCompile(`^(requires|ensures|decreases|fmtwhen)\s*(?:\[([A-Za-z0-9_\-]+)\])?\s+(.*)$`)
 
 func funcID(name string) string {
 	s := strings.NewReplacer("(*", "", "(", "", ")", "", ".", "_", "[", "_", "]", "_").Replace(name)
@@ -117,7 +117,7 @@ func parseContractFile(path string) ([]*Contract, error) {
 		}
 		fields := strings.Fields(body)
 		switch fields[0] {
-		case "inline", "pure", "trusted", "noinline", "lemma", "spec", "functional":
+		case "inline", "pure", "trusted", "noinline", "lemma", "spec", "functional", "structural":
 			for _, f := range fields {
 				cur.Flags[f] = true
 			}
@@ -643,7 +643,7 @@ func (w *weaver) weave(c *Contract) {
 		}
 		switch cl.Kind {
 		case "with":
-		case "requires", "ensures", "decreases":
+		case "requires", "ensures", "decreases", "fmtwhen":
 			if cl.Kind == "ensures" {
 				e2, err := rewriteOld(expr, ptrParams)
 				if err != nil {
@@ -656,7 +656,7 @@ func (w *weaver) weave(c *Contract) {
 				w.fail("%s: %v in %q", cl.Line, err, expr)
 				continue
 			}
-			short := map[string]string{"requires": "req", "ensures": "ens", "decreases": "dec"}[cl.Kind]
+			short := map[string]string{"requires": "req", "ensures": "ens", "decreases": "dec", "fmtwhen": "fmt"}[cl.Kind]
 			cl.GenName = fmt.Sprintf("vc__%s__%s__%d", short, c.ID, n)
 			n++
 			ret := "bool"
